@@ -390,7 +390,7 @@ func (w *World) genWithdrawStep(r *Rand, sub uint64, forged *VoteOpt) (Step, boo
 }
 
 var badWithdrawVariants = []string{"other-script", "other-address-type", "over-amount", "over-fee", "fee-boundary", "zero-fee", "two-extra-outputs", "change-to-retired-key", "change-to-stranger",
-	"dup-ids", "process-terminal", "process-processing", "process-unknown", "approve-processing", "approve-pending", "approve-terminal", "approve-unknown",
+	"dup-ids", "process-terminal", "process-processing", "process-unknown", "approve-processing", "approve-pending", "approve-terminal", "approve-unknown", "approve-dup-ids",
 	"replace-lower-fee", "same-tx", "unknown-pid",
 	"finalize-unknown-txid", "finalize-index0", "finalize-alias-position", "finalize-coinbase-alias", "finalize-unvoted-header", "finalize-wrong-proof", "finalize-other-candidate", "finalize-other-pid", "finalize-short-header", "finalize-empty-proof", "finalize-twice"}
 
@@ -476,6 +476,17 @@ func (w *World) genBadWithdrawStep(r *Rand, sub uint64) (Step, bool) {
 		return mkStep("rel.badwithdraw", withdrawArgs{Action: "approve", IDs: some(terminal), Variant: v}, sub), true
 	case "approve-unknown":
 		return mkStep("rel.badwithdraw", withdrawArgs{Action: "approve", IDs: []uint64{uint64(100000 + r.Intn(100))}, Variant: v}, sub), true
+	case "approve-dup-ids":
+		// a cancel-requested id listed twice in one approval (adjacent, or with another id between): one refund at most
+		ids := byStatus[bitcointypes.WITHDRAWAL_STATUS_CANCELING]
+		if len(ids) == 0 {
+			return Step{}, false
+		}
+		list := []uint64{ids[0], ids[0]}
+		if len(ids) > 1 && r.Chance(0.5) {
+			list = []uint64{ids[0], ids[1], ids[0]}
+		}
+		return mkStep("rel.badwithdraw", withdrawArgs{Action: "approve", IDs: list, Variant: v}, sub), true
 	case "replace-lower-fee", "same-tx":
 		if len(live) == 0 {
 			return Step{}, false
